@@ -42,17 +42,6 @@ Section EvalI64.
     | _ => Err
     end.
 
-  (** gcd / lcm fold: [result = result.map(|l| f(l, r)).unwrap_or(r)] *)
-  Fixpoint fold_opt (f : Z -> Z -> res Z) (acc : option Z) (vs : list Z) : res (option Z) :=
-    match vs with
-    | [] => Ok acc
-    | v :: vs' =>
-        match acc with
-        | None => fold_opt f (Some v) vs'
-        | Some a => let* r := f a v in fold_opt f (Some r) vs'
-        end
-    end.
-
   Definition sortZ : list Z -> list Z := isort (fun z => z).
 
   Definition agg_i64 (g : aggop) (vs : list Z) : res Z :=
@@ -72,14 +61,10 @@ Section EvalI64.
                 let* b := index s (Nat.div2 len - 1) in      (* usize underflow -> index panic *)
                 match vs with [] => Panic | _ => Ok (Z.quot (a + b) 2) end
               else index s (Nat.div2 len)
-    | AGcd => if (1 <? len)%nat then
-                let* r := fold_opt rgcd None vs in
-                match r with Some v => Ok v | None => Panic end
-              else match vs with v :: _ => Ok v | [] => Ok 0 end
-    | ALcm => if (1 <? len)%nat then
-                let* r := fold_opt rlcm None vs in
-                match r with Some v => Ok v | None => Panic end
-              else match vs with v :: _ => Ok v | [] => Ok 0 end
+    | AGcd => let* r := rfold ugcd 0 (map Z.abs vs) in of_option (fit r)
+    | ALcm => let ms := map Z.abs vs in
+              if existsb (Z.eqb 0) ms then Ok 0
+              else let* r := rfold ulcm 1 ms in of_option (fit r)
     end.
 
   Fixpoint eval_i64 (a : node Z) : res Z :=
